@@ -25,6 +25,7 @@ structure ProcIterOK (σ : Leaves) (reg : Nat → Option (List Row)) (t : Rel) (
   cached : t.procFlag = true → (s'.payloadOf t).isSome = true
   temp : s'.nextTemp = s.nextTemp
   mono : PayMono s.st s'.st
+  new : PayNew t s.st s'.st
 
 theorem payloadOf_free (s : ProcState) (r : Rel) (h : s.sq.payload r.oid = none) :
     s.payloadOf r = match r with
@@ -46,23 +47,24 @@ theorem sqFree_oid (sq : SqlState) : (r : Rel) → r.sqFree sq → r.procFlag = 
 /-- The `materialize` hook of the harness's Processor on a single-engine iteration tree: it returns the rows of the
 direct evaluation as a row sequence, logs one hook call, and leaves the payload store right. -/
 theorem hookMaterialize_iter (σ : Leaves) (reg : Nat → Option (List Row)) (t : Rel) (name : String) (s : ProcState)
-    (hk : t.engine.kind = .iter) (hio : t.IterOK) (hwf : t.WF) (htr : t.Truthful σ) (hkd : keyDetermined σ t = true)
+    (hk : t.engine.kind = .iter) (hio : t.IterOKs s.st) (hwf : t.WF) (htr : t.Truthful σ) (hkd : keyDetermined σ t = true)
     (hreg : t.RegOK σ reg) (hs : StoreOK σ reg s.st) :
     ∃ s', (hookMaterialize σ t name) s = (.ok (.iter (.seq (sem σ t))), s') ∧ StoreOK σ reg s'.st ∧
-      s'.sq = s.sq ∧ s'.nextTemp = s.nextTemp ∧ PayMono s.st s'.st := by
-  obtain ⟨it, st', h1, h2, h3, h4⟩ : ∃ it st', exec σ t.engine t { s.st with log := [] } = .ok (it, st') ∧
-      it.rows σ = .ok (sem σ t) ∧ StoreOK σ reg st' ∧ PayMono s.st st' := by
-    have := exec_correctM σ reg t t.engine { s.st with log := [] } (IterOKs.of_iterOK _ t hio) hwf htr hkd hreg
+      s'.sq = s.sq ∧ s'.nextTemp = s.nextTemp ∧ PayMono s.st s'.st ∧ PayNew t s.st s'.st := by
+  obtain ⟨it, st', h1, h2, h3, h4, h5⟩ : ∃ it st', exec σ t.engine t { s.st with log := [] } = .ok (it, st') ∧
+      it.rows σ = .ok (sem σ t) ∧ StoreOK σ reg st' ∧ PayMono s.st st' ∧ PayNew t s.st st' := by
+    have hm0 : PayMono s.st { s.st with log := [] } := PayMono.of_payloads_eq rfl
+    have := exec_correctM σ reg t t.engine { s.st with log := [] } (IterOKs.mono hm0 t hio) hwf htr hkd hreg
       (hs.log []) rfl
     unfold ExecGoodM at this
-    obtain ⟨it, s', a, b, _, d, e⟩ := this
-    exact ⟨it, s', a, b, d, fun o ho => e o ho⟩
+    obtain ⟨it, s', a, b, _, d, e, f⟩ := this
+    exact ⟨it, s', a, b, d, fun o ho => e o ho, fun o ho => f o ho⟩
   unfold hookMaterialize evalSingle wrapRows
   simp [bind, ExceptT.bind, ExceptT.mk, ExceptT.bindCont, StateT.bind, get, getThe, MonadStateOf.get,
     StateT.get, set, StateT.set, modify, modifyGet, MonadStateOf.modifyGet, StateT.modifyGet, MonadState.modifyGet,
     liftM, monadLift, MonadLift.monadLift, ExceptT.lift, pure,
     ExceptT.pure, StateT.pure, Functor.map, StateT.map, hk, h1, h2]
-  exact ⟨_, rfl, h3.of_payloads_eq rfl, rfl, rfl, fun o ho => h4 o ho⟩
+  exact ⟨_, rfl, h3.of_payloads_eq rfl, rfl, rfl, fun o ho => h4 o ho, fun o ho => h5 o ho⟩
 
 theorem payloadThrough_some (s : ProcState) (p : AnyPayload) : (t : Rel) → s.payloadOf t = some p →
     payloadThrough s t = some p
@@ -113,7 +115,7 @@ theorem process_plain_iter (σ : Leaves) (reg : Nat → Option (List Row)) (e : 
       have hpl : pl = true := hio
       have hc : (s.payloadOf (Rel.leaf oid le cols nm mn mx pl ms)).isSome = true := by
         rw [payloadOf_free s (Rel.leaf oid le cols nm mn mx pl ms) hq]; simp [hpl]
-      refine ⟨s, ?_, hs, rfl, fun _ => hc, rfl, PayMono.refl _⟩
+      refine ⟨s, ?_, hs, rfl, fun _ => hc, rfl, PayMono.refl _, PayNew.refl _ _⟩
       unfold processRec
       simp [bind, ExceptT.bind, ExceptT.mk, ExceptT.bindCont, StateT.bind, get, getThe, MonadStateOf.get, StateT.get,
         liftM, monadLift, MonadLift.monadLift, ExceptT.lift, ExceptT.run, StateT.run, hc, pure, ExceptT.pure,
@@ -127,7 +129,7 @@ theorem process_plain_iter (σ : Leaves) (reg : Nat → Option (List Row)) (e : 
       obtain ⟨s', ih, P⟩ := process_plain_iter σ reg e hek t n none s hp hio.1 hwf.1 htr hkd' hreg hs hq
         (by simp [Rel.size] at hf; omega)
       simp only [ExceptT.run, StateT.run] at ih
-      refine ⟨s', ?_, P.store, P.sq, fun h => by simp [Rel.procFlag] at h, P.temp, P.mono⟩
+      refine ⟨s', ?_, P.store, P.sq, fun h => by simp [Rel.procFlag] at h, P.temp, P.mono, P.new⟩
       unfold processRec
       simp [bind, ExceptT.bind, ExceptT.mk, ExceptT.bindCont, StateT.bind, get, getThe, MonadStateOf.get, StateT.get,
         liftM, monadLift, MonadLift.monadLift, ExceptT.lift, ExceptT.run, StateT.run, pure, ExceptT.pure, StateT.pure,
@@ -146,7 +148,8 @@ theorem process_plain_iter (σ : Leaves) (reg : Nat → Option (List Row)) (e : 
         obtain ⟨s2, ih2, P2⟩ := process_plain_iter σ reg e hek r n none s1 hpr hir hwf.2.1 htr.2 hkd.2 hreg.2
           P1.store (by rw [P1.sq]; exact hq.2) (by simp [Rel.size] at hf; omega)
         simp only [ExceptT.run, StateT.run] at ih1 ih2
-        refine ⟨s2, ?_, P2.store, by rw [P2.sq, P1.sq], fun h => by simp [Rel.procFlag] at h, by rw [P2.temp, P1.temp], P1.mono.trans P2.mono⟩
+        refine ⟨s2, ?_, P2.store, by rw [P2.sq, P1.sq], fun h => by simp [Rel.procFlag] at h, by rw [P2.temp, P1.temp], P1.mono.trans P2.mono,
+          PayNew.trans P1.new P2.new (fun _ h => by simp [Rel.matOids, h]) (fun _ h => by simp [Rel.matOids, h])⟩
         unfold processRec
         simp [bind, ExceptT.bind, ExceptT.mk, ExceptT.bindCont, StateT.bind, get, getThe, MonadStateOf.get,
           StateT.get, liftM, monadLift, MonadLift.monadLift, ExceptT.lift, ExceptT.run, StateT.run, pure,
@@ -167,7 +170,7 @@ theorem process_plain_iter (σ : Leaves) (reg : Nat → Option (List Row)) (e : 
         -- already materialized
         have hcached : (s.payloadOf (Rel.mat oid name target)).isSome = true := by
           rw [payloadOf_free s (Rel.mat oid name target) hq.1]; simp [Rel.oid, hc]
-        refine ⟨s, ?_, hs, rfl, fun _ => hcached, rfl, PayMono.refl _⟩
+        refine ⟨s, ?_, hs, rfl, fun _ => hcached, rfl, PayMono.refl _, PayNew.refl _ _⟩
         unfold processRec
         simp [bind, ExceptT.bind, ExceptT.mk, ExceptT.bindCont, StateT.bind, get, getThe, MonadStateOf.get,
           StateT.get, liftM, monadLift, MonadLift.monadLift, ExceptT.lift, ExceptT.run, StateT.run, hcached, pure,
@@ -179,13 +182,23 @@ theorem process_plain_iter (σ : Leaves) (reg : Nat → Option (List Row)) (e : 
           (by simp [Rel.size] at hf; omega)
         simp only [ExceptT.run, StateT.run] at ih
         have hattach : ∀ (s2 : ProcState) (it : Iterable), StoreOK σ reg s2.st → s2.sq = s.sq →
-            s2.nextTemp = s.nextTemp → PayMono s.st s2.st → ItOK it → it.rows σ = .ok (sem σ target) →
+            s2.nextTemp = s.nextTemp → PayMono s.st s2.st → PayNew target s.st s2.st → ItOK it →
+            it.rows σ = .ok (sem σ target) →
             ProcIterOK σ reg (Rel.mat oid name target) s (s2.attach oid (.iter it)) := by
-          intro s2 it h2 hq2 ht2 hm2 hi hr
-          refine ⟨?_, hq2, fun _ => ?_, ht2, ?_⟩
+          intro s2 it h2 hq2 ht2 hm2 hn2 hi hr
+          refine ⟨?_, hq2, fun _ => ?_, ht2, ?_, ?_⟩
           · exact StoreOK.cons h2 oid it (sem σ target) hi hreg.1 hr
           · simp [ProcState.attach, ProcState.payloadOf, Rel.oid, ExecState.payload]
           · exact hm2.trans (PayMono.cons s2.st oid it s2.st.evals)
+          · intro o ho
+            by_cases hoo : o = oid
+            · right; simp [Rel.matOids, hoo]
+            · have : (s2.st.payload o).isSome = true := by
+                have hne : (oid == o) = false := by simpa using fun h => hoo h.symm
+                simpa [ProcState.attach, ExecState.payload, List.find?_cons, hne] using ho
+              rcases hn2 o this with h | h
+              · exact Or.inl h
+              · right; simp [Rel.matOids, h]
         have hmf : (Rel.mat oid name target).procFlag = true := rfl
         rw [hmf]
         have hek' : target.engine.kind = .iter := by rw [PlainIter.engine target hpt]; exact hek
@@ -197,7 +210,7 @@ theorem process_plain_iter (σ : Leaves) (reg : Nat → Option (List Row)) (e : 
           | some p =>
             obtain ⟨it, hpit, hi, hr⟩ := cached_payload_rows σ reg s1 e P1.store target (by rw [P1.sq]; exact hq.2) hpt hreg.2 hfl p hpo
             subst hpit
-            refine ⟨s1.attach oid (.iter it), ?_, hattach s1 it P1.store P1.sq P1.temp P1.mono hi hr⟩
+            refine ⟨s1.attach oid (.iter it), ?_, hattach s1 it P1.store P1.sq P1.temp P1.mono P1.new hi hr⟩
             unfold processRec
             simp [hfl, hnc, ih, Res.get, bind, ExceptT.bind, ExceptT.mk, ExceptT.bindCont, StateT.bind, get, getThe,
               MonadStateOf.get, StateT.get, modify, modifyGet, MonadStateOf.modifyGet, StateT.modifyGet,
@@ -210,7 +223,7 @@ theorem process_plain_iter (σ : Leaves) (reg : Nat → Option (List Row)) (e : 
               joinIdentity_sound σ target hwf htr
                 (by simpa [Rel.isJoinIdentity, Rel.columns, Rel.maxRows, Rel.minRows] using hji)
             refine ⟨s1.attach oid (.iter (.mapping [] [Row.empty])), ?_,
-              hattach s1 _ P1.store P1.sq P1.temp P1.mono (by simp [ItOK]) (by rw [hsem]; rfl)⟩
+              hattach s1 _ P1.store P1.sq P1.temp P1.mono P1.new (by simp [ItOK]) (by rw [hsem]; rfl)⟩
             unfold processRec
             simp [hfl, hnc, ih, hji, hek', trivialPayload, Res.get, bind, ExceptT.bind, ExceptT.mk, ExceptT.bindCont,
               StateT.bind, get, getThe, MonadStateOf.get, StateT.get, modify, modifyGet, MonadStateOf.modifyGet,
@@ -221,7 +234,7 @@ theorem process_plain_iter (σ : Leaves) (reg : Nat → Option (List Row)) (e : 
               have hsem : sem σ target = [] :=
                 maxRows_zero_sound σ target hwf htr (by simpa [Rel.maxRows] using hmz)
               refine ⟨s1.attach oid (.iter (.mapping [] [])), ?_,
-                hattach s1 _ P1.store P1.sq P1.temp P1.mono (by simp [ItOK]) (by rw [hsem]; rfl)⟩
+                hattach s1 _ P1.store P1.sq P1.temp P1.mono P1.new (by simp [ItOK]) (by rw [hsem]; rfl)⟩
               unfold processRec
               simp [hfl, hnc, ih, hji, hmz, hek', trivialPayload, Res.get, bind, ExceptT.bind, ExceptT.mk,
                 ExceptT.bindCont, StateT.bind, get, getThe, MonadStateOf.get, StateT.get, modify, modifyGet,
@@ -229,10 +242,11 @@ theorem process_plain_iter (σ : Leaves) (reg : Nat → Option (List Row)) (e : 
                 MonadLift.monadLift, ExceptT.lift, ExceptT.run, StateT.run, pure, ExceptT.pure, StateT.pure,
                 Functor.map, StateT.map]
             · -- the hook evaluates the target
-              obtain ⟨s2, hh, h2, hsq, hnt, hm2⟩ := hookMaterialize_iter σ reg target name s1 hek' hio hwf htr hkd' hreg.2
-                P1.store
+              obtain ⟨s2, hh, h2, hsq, hnt, hm2, hn2⟩ := hookMaterialize_iter σ reg target name s1 hek'
+                (IterOKs.of_iterOK _ target hio) hwf htr hkd' hreg.2 P1.store
               refine ⟨s2.attach oid (.iter (.seq (sem σ target))), ?_,
-                hattach s2 _ h2 (by rw [hsq, P1.sq]) (by rw [hnt, P1.temp]) (P1.mono.trans hm2) trivial rfl⟩
+                hattach s2 _ h2 (by rw [hsq, P1.sq]) (by rw [hnt, P1.temp]) (P1.mono.trans hm2)
+                  (PayNew.trans P1.new hn2 (fun _ h => h) (fun _ h => h)) trivial rfl⟩
               unfold processRec
               simp [hfl, hnc, ih, hji, hmz, hh, Res.get, bind, ExceptT.bind, ExceptT.mk, ExceptT.bindCont, StateT.bind,
                 get, getThe, MonadStateOf.get, StateT.get, modify, modifyGet, MonadStateOf.modifyGet,
